@@ -13,7 +13,8 @@ LEVEL = "fault_enumeration"
 RULE = ("history = [optional warm-up get] + one catalogue op interrupted by a BaseException raised from socket call j "
         "(every j of the fault-free trace x {KeyboardInterrupt, SystemExit, BaseException subclass}) + 4 follow-up calls; "
         "on Client, PooledClient(max_pool_size 1, 2), HashClient (pooled or not). Complete enumeration of crash points for "
-        "single-operation histories; thorough adds random longer prefixes and all delivery schedules. Non-trivial = the "
+        "single-operation histories; plus histories in which two calls are interrupted (every site x every site for 4x3 operation "
+        "pairs); thorough adds random longer prefixes and all delivery schedules. Non-trivial = the "
         "interrupt fired and a follow-up exchanged bytes; distinct by (stack, cfg, op, warm?, site, kind, schedule).")
 ASSUMPTIONS = [
     "an interrupt is raised from inside a socket call (connect/sendall/recv/settimeout/...), which is where gevent timeouts, signals delivered during blocking I/O and KeyboardInterrupt surface in practice",
@@ -36,6 +37,10 @@ STACKS = [
     # an idle connection expires at the next checkout: its close() is one more interruption point
     ("pooled", [("mc1", 11211)], {"max_pool_size": 1, "pool_idle_timeout": 5}),
     ("pooled", [("mc1", 11211)], {"max_pool_size": 2, "pool_idle_timeout": 5}),
+    # servers given as UNIX socket paths (self.server is a str, not a (host, port) pair, in every handler)
+    ("client", ["/var/run/memcached/mc.sock"], {}),
+    ("pooled", ["/var/run/memcached/mc.sock"], {"max_pool_size": 1, "ignore_exc": True}),
+    ("hash", ["/var/run/memcached/mc.sock"], {"ignore_exc": True}),
 ]
 
 
@@ -150,6 +155,45 @@ def run_group(res, stack, servers, cfg, label, op, warm, tier, rng):
                 res.violation(key, msg, c)
 
 
+def two_interrupts(res, stack, servers, cfg, tier, rng):
+    """two calls of one history are interrupted: the first interruption may leave something behind on the object (a flag,
+    a half-finished close) that only matters when a later call is aborted too"""
+    first_ops = [("quit", (), {}), ("get", ("h1",), {}), ("set", ("k-set", b"v"), {"noreply": False}), ("delete", ("h1",), {})]
+    second_ops = [("get", ("h2",), {}), ("set", ("k2", b"new"), {"noreply": False}), ("incr", ("num", 1), {"noreply": False})]
+    for ai, opA in enumerate(first_ops):
+        if not catalogue.supports(stack, opA[0]):
+            continue
+        for bi, opB in enumerate(second_ops):
+            ops = [("get", ("h3",), {}), opA, opB] + [p for _, p in catalogue.PROBES]
+            case = {"stack": stack, "servers": servers, "cfg": cfg, "label": "two:%s+%s" % (opA[0], opB[0]), "ops": ops,
+                    "faulted": 1, "faults": {}, "seg": ("whole",)}
+            o0 = history.execute(case)
+            for idxA, typA, sidA in driver.socket_calls_by_call(o0.net).get(1, []):
+                kindsA = ["kbint"] + (["kbint_delivered"] if typA == fakenet.T_SENDALL else [])
+                for kA in kindsA:
+                    c1 = dict(case)
+                    c1["faults"] = {(1, idxA): kA}
+                    o1 = history.execute(c1)
+                    if not o1.net.fired:
+                        continue
+                    for idxB, typB, sidB in driver.socket_calls_by_call(o1.net).get(2, []):
+                        kindsB = ["greenlet"] + (["greenlet_delivered"] if typB == fakenet.T_SENDALL else [])
+                        for kB in kindsB:
+                            c2 = dict(c1)
+                            c2["faults"] = {(1, idxA): kA, (2, idxB): kB}
+                            o = history.execute(c2)
+                            viol, follow_io, reached = judge(c2, o)
+                            fired = len(o.net.fired)
+                            res.count("interrupts_fired", fired)
+                            res.count("followup_recv_calls", follow_io)
+                            res.count("interrupt_reached_caller", reached)
+                            res.count("histories_with_two_interrupted_calls", 1 if fired >= 2 else 0)
+                            nt = (stack, len(servers), tuple(sorted(cfg.items())), "two", ai, bi, idxA, kA, idxB, kB) if fired >= 2 and follow_io else None
+                            res.case(nt)
+                            for key, msg in viol:
+                                res.violation("two-interrupts:" + key, msg, c2)
+
+
 EXTRA_OPS = [("get-illegal-key", ("get", ("bad key",), {})), ("set-illegal-key", ("set", ("bad key", b"v"), {"noreply": False})),
              ("get_many-illegal-key", ("get_many", (["h1", "bad key"],), {}))]
 
@@ -172,6 +216,9 @@ def shard(tier, seed, idx, n):
         if gi % n != idx:
             continue
         run_group(res, *g, tier, random.Random(seed * 7919 + gi))
+    for si, (stack, servers, cfg) in enumerate(STACKS):
+        if si % n == idx:
+            two_interrupts(res, stack, servers, cfg, tier, random.Random(seed + si))
     res.extra["exhaustive"] = True
     res.extra["exhaustive_part"] = "every socket call of every catalogue op x 3 interrupt kinds (single-operation histories)"
     return res
